@@ -91,6 +91,10 @@ pub struct Session {
     pub peeked: Option<u128>,
     synced: bool,
     dead: bool,
+    /// the oracle saw two live holders of one TOI: the allocator's books are wrong, a later release would
+    /// trip `debug_assert!(success)` inside a destructor (abort on a second panic) - the case ends here
+    /// and nothing of this sender is ever dropped
+    tainted: std::cell::Cell<bool>,
     /// number of live TOIs, published before every call that may not return
     live_count: Arc<AtomicU64>,
 }
@@ -99,6 +103,7 @@ impl Session {
     pub fn new(live_count: Arc<AtomicU64>) -> Session {
         Session {
             live_count,
+            tainted: std::cell::Cell::new(false),
             sender: None,
             bits: 16,
             tsi: 0,
@@ -148,7 +153,45 @@ impl Session {
         }
         if live.contains(&v) {
             o.fail("toi-dup-live", &format!("allocated TOI {} is still reserved / attached to a live object", v));
+            self.tainted.set(true);
         }
+    }
+
+    /// end of a case: release everything one TOI at a time, each under a guard (a panicking release must
+    /// never meet a second one in the same destructor chain); at the first problem the rest is leaked
+    fn teardown(&mut self) {
+        if self.dead || self.tainted.get() {
+            self.leak();
+            return;
+        }
+        let mut hs: Vec<Box<Toi>> = std::mem::take(&mut self.handles).into_values().collect();
+        while let Some(h) = hs.pop() {
+            if guarded(AssertUnwindSafe(move || drop(h))).is_err() {
+                std::mem::forget(hs);
+                self.leak();
+                return;
+            }
+        }
+        if let Some(mut sender) = self.sender.take() {
+            let tois: Vec<u128> = self.objs.values().cloned().collect();
+            let r = guarded(AssertUnwindSafe(|| {
+                for t in &tois {
+                    sender.remove_object(*t);
+                }
+                for _ in 0..100_000 {
+                    if sender.read(now()).is_none() {
+                        break;
+                    }
+                }
+            }));
+            if r.is_err() {
+                std::mem::forget(sender);
+            } else if let Err(_) = guarded(AssertUnwindSafe(move || drop(sender))) {
+                // nothing left to protect
+            }
+        }
+        self.objs.clear();
+        self.cur = None;
     }
 
     fn object(&self, fail: bool, toi: Option<Box<Toi>>) -> Box<ObjectDesc> {
@@ -214,6 +257,7 @@ impl Session {
                     Some(e) => {
                         if e != v {
                             o.fail("add-toi-ne-handle", &format!("add_object returned {} for an object carrying handle {}", v, e));
+                            self.tainted.set(true);
                         }
                     }
                     None => self.check_fresh(v, &live, o),
@@ -274,6 +318,10 @@ impl Session {
 
 impl Session {
     fn exec(&mut self, op: &str, o: &mut Oracle) -> String {
+        if self.tainted.get() && !self.dead {
+            self.dead = true;
+            self.leak();
+        }
         self.live_count.store(self.live().len() as u64, Ordering::SeqCst);
         let t: Vec<&str> = op.split(' ').collect();
         if t.len() < 2 || t[0] != "toi" {
@@ -299,9 +347,7 @@ impl Session {
                     }
                 };
                 let lc = self.live_count.clone();
-                if self.dead {
-                    self.leak();
-                }
+                self.teardown();
                 *self = Session::new(lc);
                 self.bits = bits;
                 self.tsi = tsi;
@@ -566,6 +612,7 @@ impl Session {
                             self.check_fresh(v, &live, o);
                             if !tois.insert(v) {
                                 o.fail("toi-dup-live", &format!("add_object returned TOI {} twice in a row", v));
+                                self.tainted.set(true);
                             }
                             // live until its transfer is over
                             self.objs.insert(3_000_000 + tois.len() as u64, v);
@@ -580,6 +627,10 @@ impl Session {
                             return "PANIC".to_string();
                         }
                     }
+                }
+                if self.tainted.get() {
+                    // two live objects share a TOI: do not run their transfers (see `tainted`)
+                    return "DEAD".to_string();
                 }
                 if self.sender.as_mut().unwrap().publish(now()).is_err() {
                     return "ERR publish".to_string();
@@ -664,28 +715,45 @@ impl Session {
                 let distinct: BTreeSet<u128> = self.live();
                 if distinct.len() != self.handles.len() + self.objs.len() {
                     o.fail("toi-dup-live", "two live handles / objects share a TOI");
+                    self.tainted.set(true);
                 }
                 format!("ok {} {}", first, last)
             }
             ("churn", 3) => {
-                // n times: allocate a handle and drop it at once
+                // n times: allocate a handle and drop it at once (the live set does not change meanwhile)
                 let n = match num(2) {
                     Some(n) => n,
                     None => return "bad-op".to_string(),
                 };
-                let mut last = 0u128;
-                for _ in 0..n {
-                    match self.alloc(false, o) {
-                        Ok(h) => last = h.get(),
-                        Err(loc) => {
-                            o.fail("alloc-panic", &format!("allocate_toi panics at {}", loc));
-                            self.dead = true;
-                            self.leak();
-                            return "PANIC".to_string();
+                let live = self.live();
+                let bits = self.bits;
+                let sender = self.sender.as_mut().unwrap();
+                let r = guarded(AssertUnwindSafe(|| {
+                    let mut last = 0u128;
+                    let mut bad: Option<u128> = None;
+                    for _ in 0..n {
+                        let h = sender.allocate_toi();
+                        last = h.get();
+                        if bad.is_none() && (last == 0 || last >> bits != 0 || live.contains(&last)) {
+                            bad = Some(last);
                         }
                     }
+                    (last, bad)
+                }));
+                match r {
+                    Ok((last, bad)) => {
+                        if let Some(v) = bad {
+                            self.check_fresh(v, &live, o);
+                        }
+                        format!("ok {}", last)
+                    }
+                    Err(loc) => {
+                        o.fail("alloc-panic", &format!("allocate_toi panics at {}", loc));
+                        self.dead = true;
+                        self.leak();
+                        "PANIC".to_string()
+                    }
                 }
-                format!("ok {}", last)
             }
             _ => "bad-op".to_string(),
         }
@@ -747,9 +815,7 @@ impl Engine for ToiEngine {
                     break;
                 }
             }
-            if s.dead {
-                s.leak();
-            }
+            s.teardown();
         });
         self.tx = Some(tx);
         self.rx = Some(rx);
@@ -959,6 +1025,230 @@ fn sequence(ctx: &mut Ctx, eng: &mut dyn Engine, rng: &mut Rng, bits: u32, init:
     }
 }
 
+
+// ------------------------------------------------------------------------------------------------
+// Structured 16-bit histories around the wrap point.  Random histories almost never have the values
+// next to the wrap point (max-1, max, 1, 2, ...) live at the moment the counter comes back to them,
+// so this generator builds that situation on purpose:
+//   A. holders (handles, objects with implicit TOI, objects with explicit TOI; some dropped again so
+//      that runs of consecutive live values and gaps exist) are placed on the values just below and
+//      just above the wrap point - either directly (start value = max-j) or by allocating at 1.. first
+//      and churning up to max-j;
+//   B. a churn of (65535 - live - r) allocate/drop cycles brings the counter back to r free values
+//      before the place it was, i.e. just before / into the zone (every allocation of the churn is
+//      checked by the oracle, the last value is compared with the model);
+//   C. the zone is then crossed step by step with single allocations of all kinds, interleaved with
+//      drops / removals / transfers of the holders in the zone (a holder released right before the
+//      counter reaches it, or right after it was skipped), every value compared with the model;
+//   B and C are repeated once.
+struct Zone {
+    handles: Vec<u64>,
+    objs: Vec<u64>,
+    cur: Option<u64>,
+    next_name: u64,
+    last: u64, // last value returned (16 bit)
+    dead: bool,
+}
+
+impl Zone {
+    fn name(&mut self) -> u64 {
+        self.next_name += 1;
+        self.next_name
+    }
+    fn live(&self) -> u64 {
+        (self.handles.len() + self.objs.len()) as u64 + if self.cur.map_or(false, |k| !self.objs.contains(&k)) { 1 } else { 0 }
+    }
+    fn step(&mut self, ctx: &mut Ctx, eng: &mut dyn Engine, op: &str) -> String {
+        if self.dead {
+            return "DEAD".to_string();
+        }
+        let obs = ctx.step(eng, op);
+        ctx.count(&format!("wrapzone-op={}", op.split(' ').nth(1).unwrap_or("")));
+        let v = if let Some(x) = obs.strip_prefix("toi ") {
+            x.parse::<u64>().ok()
+        } else if let Some(x) = obs.strip_prefix("ok ") {
+            x.split(' ').last().and_then(|y| y.parse::<u64>().ok())
+        } else {
+            None
+        };
+        if let Some(v) = v {
+            if !op.starts_with("toi addx") {
+                if v < self.last && op.starts_with("toi churn") == false {
+                    ctx.count("wrapzone-single-allocation-crossing-the-wrap");
+                }
+                self.last = v;
+            }
+        }
+        if obs == "PANIC" || obs == "HANG" || obs == "DEAD" {
+            self.dead = true;
+        }
+        obs
+    }
+    /// one allocation of a random kind; `keep` = the holder stays live
+    fn place(&mut self, ctx: &mut Ctx, eng: &mut dyn Engine, rng: &mut Rng, keep: bool) {
+        match rng.below(4) {
+            0 | 1 => {
+                let h = self.name();
+                let obs = self.step(ctx, eng, &format!("toi {} {}", if rng.bool() { "alloc" } else { "alloct" }, h));
+                if obs.starts_with("toi ") {
+                    if keep {
+                        self.handles.push(h);
+                    } else {
+                        self.step(ctx, eng, &format!("toi {} {}", if rng.bool() { "drop" } else { "dropt" }, h));
+                    }
+                }
+            }
+            2 => {
+                let k = self.name();
+                if !keep && rng.bool() {
+                    self.step(ctx, eng, &format!("toi addfail {}", k));
+                    return;
+                }
+                let obs = self.step(ctx, eng, &format!("toi add {}", k));
+                if obs.starts_with("toi ") {
+                    if keep {
+                        self.objs.push(k);
+                    } else {
+                        self.step(ctx, eng, &format!("toi remove {}", k));
+                    }
+                }
+            }
+            _ => {
+                let h = self.name();
+                let k = self.name();
+                let obs = self.step(ctx, eng, &format!("toi alloc {}", h));
+                if obs.starts_with("toi ") {
+                    if keep {
+                        if self.step(ctx, eng, &format!("toi addx {} {}", k, h)).starts_with("toi ") {
+                            self.objs.push(k);
+                        }
+                    } else {
+                        self.step(ctx, eng, &format!("toi addxfail {} {}", k, h));
+                    }
+                }
+            }
+        }
+    }
+    /// release one random holder (any way the API offers)
+    fn release(&mut self, ctx: &mut Ctx, eng: &mut dyn Engine, rng: &mut Rng) {
+        let nh = self.handles.len() as u64;
+        let no = self.objs.len() as u64;
+        if nh + no == 0 {
+            return;
+        }
+        let i = rng.below(nh + no);
+        if i < nh {
+            let h = self.handles.swap_remove(i as usize);
+            self.step(ctx, eng, &format!("toi {} {}", if rng.bool() { "drop" } else { "dropt" }, h));
+        } else {
+            let k = self.objs[(i - nh) as usize];
+            if self.cur.is_none() && rng.chance(2, 3) {
+                // transfer it; sometimes remove it while it is in transfer; complete now or a few steps later
+                self.step(ctx, eng, &format!("toi start {}", k));
+                self.cur = Some(k);
+                if rng.chance(1, 3) {
+                    self.step(ctx, eng, &format!("toi remove {}", k));
+                }
+                if rng.bool() {
+                    self.drain(ctx, eng);
+                }
+            } else if self.cur != Some(k) {
+                self.objs.retain(|x| *x != k);
+                self.step(ctx, eng, &format!("toi remove {}", k));
+            }
+        }
+    }
+    fn drain(&mut self, ctx: &mut Ctx, eng: &mut dyn Engine) {
+        if let Some(k) = self.cur.take() {
+            self.objs.retain(|x| *x != k);
+            self.step(ctx, eng, "toi drain");
+        }
+    }
+}
+
+fn wrapzone(ctx: &mut Ctx, eng: &mut dyn Engine, rng: &mut Rng, id: &str) {
+    const MAX: u64 = 65535;
+    eng.reset();
+    ctx.case(id);
+    ctx.count("wrapzone-cases");
+    let j = rng.below(5); // the zone starts at max-j
+    let low_first = rng.chance(1, 3);
+    let start: u64 = if low_first { *rng.pick(&[1u64, 0, 2, 65536, 3]) } else { MAX - j };
+    let tsi = *rng.pick(&[1u64, 65536]);
+    let mut z = Zone { handles: vec![], objs: vec![], cur: None, next_name: 0, last: 0, dead: false };
+    if z.step(ctx, eng, &format!("toi new 16 {} {}", start, tsi)) != "ok" {
+        return;
+    }
+    let dense = rng.chance(1, 3); // all values of the zone live (long consecutive runs)
+    let keep = |rng: &mut Rng| dense || rng.chance(2, 3);
+    if low_first {
+        // values 1, 2, 3, ... first, then up to max-j
+        for _ in 0..rng.range(1, 5) {
+            let k = keep(rng);
+            z.place(ctx, eng, rng, k);
+        }
+        let next = z.last + 1;
+        if MAX - j > next {
+            z.step(ctx, eng, &format!("toi churn {}", MAX - j - next));
+        }
+        for _ in 0..(j + 1) {
+            let k = keep(rng);
+            z.place(ctx, eng, rng, k);
+        }
+        // the counter has just wrapped onto the live values 1, 2, ...
+        for _ in 0..rng.range(1, 4) {
+            let k = keep(rng);
+            z.place(ctx, eng, rng, k);
+        }
+    } else {
+        // max-j .. max, 1, 2, ...
+        for _ in 0..(j + 1 + rng.range(1, 5)) {
+            let k = keep(rng);
+            z.place(ctx, eng, rng, k);
+        }
+    }
+    for round in 0..2 {
+        if z.dead {
+            break;
+        }
+        // B: once around the circle, ending r free values before the present position
+        let live = z.live();
+        let r = rng.below(10 + if dense { 0 } else { 6 });
+        if live + r + 1 < MAX {
+            z.step(ctx, eng, &format!("toi churn {}", MAX - live - r));
+        }
+        // C: cross the zone step by step
+        let steps = 8 + r + rng.below(8);
+        for _ in 0..steps {
+            if z.dead {
+                break;
+            }
+            let x = rng.below(100);
+            if x < 55 {
+                let k = rng.chance(1, 2);
+                z.place(ctx, eng, rng, k);
+            } else if x < 80 {
+                z.release(ctx, eng, rng);
+            } else if x < 88 && z.cur.is_some() {
+                z.drain(ctx, eng);
+            } else if x < 94 {
+                z.step(ctx, eng, "toi fdt");
+            } else {
+                z.step(ctx, eng, &format!("toi churn {}", rng.range(1, 3)));
+            }
+        }
+        if round == 0 && rng.bool() {
+            z.drain(ctx, eng);
+        }
+    }
+    z.drain(ctx, eng);
+    z.step(ctx, eng, "toi fdt");
+    ctx.end_case(eng);
+    if !z.dead {
+        ctx.nontrivial(id);
+    }
+}
+
 fn wire_cases(ctx: &mut Ctx, eng: &mut dyn Engine, rng: &mut Rng, n: usize) {
     eng.reset();
     ctx.case("wire");
@@ -992,7 +1282,9 @@ pub fn run(ctx: &mut Ctx, eng: &mut dyn Engine) {
                 explicit TOI (accepted and refused) / remove_object / transfer start / transfer completion / freerun (n objects multiplexed to completion) / churn \
                 (allocate+drop n times; for 16 bit once around the circle so that released values come back and live ones are skipped) of up to 300 operations on a real Sender, \
                 x 6 TOI widths x start values {1, 0, max-1, max, max+1, 2*max+1, u128::MAX, None (random) x2, random in range, \
-                random 128 bit}; every returned TOI, the TOI field (flags and bytes) of the object's packets, the FDT TOI \
+                random 128 bit}; plus structured 16-bit wrap-zone histories (holders of all kinds on max-j..max, 1, 2, .. with gaps or dense, \
+                churn once around the circle to just before / into the zone, then the zone crossed by single allocations interleaved with \
+                releases of the holders in it, twice); every returned TOI, the TOI field (flags and bytes) of the object's packets, the FDT TOI \
                 attributes and the remove results are compared with the Lean model; oracle = the clauses of C15 on the \
                 implementation's observations; plus header build/parse of boundary and random TOI x TSI values; \
                 non-trivial = history with >= 2 allocations and >= 4 distinct operation kinds (distinct by case id)"
@@ -1013,6 +1305,14 @@ pub fn run(ctx: &mut Ctx, eng: &mut dyn Engine) {
                 sequence(ctx, eng, &mut rng, bits, init, nops, &id);
             }
         }
+    }
+    let nz = if ctx.tier_thorough { 1000 } else { 150 };
+    for i in 0..nz {
+        if HANGS.load(Ordering::SeqCst) >= 2 {
+            ctx.count("generation-stopped-after-2-hangs");
+            break;
+        }
+        wrapzone(ctx, eng, &mut rng, &format!("wrapzone-{}", i));
     }
     wire_cases(ctx, eng, &mut rng, if ctx.tier_thorough { 200_000 } else { 20_000 });
     if ctx.tier_thorough {
